@@ -231,4 +231,46 @@ example : runP exSig exEv ⟨Cache.init exIdx [0, 1, 2, 3], 0, 0⟩ exEvents = [
 example : runP exSig exEv ⟨Cache.init exIdx [0, 1, 2, 3], 0, 0⟩ [.eval 0, .setData 1, .eval 0] = [[0], [0]]
     ∧ runDirect exEv 0 ([.eval 0, .setData 1, .eval 0] : List (Ev Nat Nat)) = [[0], [10]] := by decide
 
+/-! ### the call sites that change the training data -/
+
+/-- every DSS step that replaces the training set ends with `clear_evaluators()` (as modelled from
+    dss.cc: init, shake at a multiple of the gap, close) -/
+theorem dss_sites_clear (run gap gen : Nat) :
+    (Site.dssInit run).changes = (Site.dssInit run).clears ∧
+    (Site.dssShake gap gen).changes = (Site.dssShake gap gen).clears ∧
+    (Site.dssClose run).changes = (Site.dssClose run).clears := ⟨rfl, rfl, rfl⟩
+
+/-- **proxy_transparent_callsites** — the call-site obligation stated explicitly: for every history
+    of validation-strategy steps, evaluations, clears and save/load round trips in which each step
+    that replaces the training set is followed by a clear of the cached evaluator (or happens while
+    the cache is still empty) – `CSafe` – and signatures are faithful, every answer of the proxy is
+    the wrapped evaluator's answer at that moment.  Histories made of DSS steps satisfy `CSafe` by
+    `dss_sites_clear`; `holdout_validation::init(0)` does not clear and is safe only on an empty cache. -/
+theorem proxy_transparent_callsites {Ind Data : Type} (sig : Ind → Key) (ev : Data → Ind → Fit)
+    (hne : ∀ i, (sig i).empty = false) (hf : ∀ d i j, sig i = sig j → ev d i = ev d j)
+    (idx : Key → Nat) (dom : List Nat) (d0 : Data) (es : List (CEv Ind Data)) (hs : CSafe true es) :
+    runP sig ev ⟨Cache.init idx dom, d0, 0⟩ (expandAll es) = runDirect ev d0 (expandAll es) :=
+  proxy_transparent sig ev idx dom d0 _
+    (callsites_disciplined sig ev hne hf es true d0 none [] hs (fun _ => rfl) (Or.inl rfl))
+
+/-- a history of DSS steps with evaluations in between meets the obligation -/
+example : CSafe true ([.eval 0, .site (.dssInit 0) 1, .eval 0, .eval 1, .site (.dssShake 2 1) 1, .eval 0,
+    .site (.dssShake 2 2) 2, .eval 1, .reload, .site (.dssClose 0) 3, .site (.dssInit 1) 4, .eval 0] : List (CEv Nat Nat)) := by
+  simp [CSafe, Site.changes, Site.clears]
+
+/-- hold-out: `init(0)` on an empty cache is fine … -/
+example : CSafe true ([.site (.holdoutInit 0) 1, .eval 0, .site (.holdoutInit 1) 1, .eval 0] : List (CEv Nat Nat)) := by
+  simp [CSafe, Site.changes, Site.clears]
+
+/-- **holdout_init0_stale** — … but with a non-empty cache (values evaluated, or reloaded, before the
+    first run) `holdout_validation::init(0)` breaks the obligation and the proxy answers with the
+    fitness on the OLD training set -/
+theorem holdout_init0_stale :
+    ¬ CSafe true ([.eval 0, .reload, .site (.holdoutInit 0) 1, .eval 0] : List (CEv Nat Nat)) ∧
+    runP exSig exEv ⟨Cache.init exIdx [0, 1, 2, 3], 0, 0⟩
+        (expandAll [.eval 0, .reload, .site (.holdoutInit 0) 1, .eval 0]) = [[0], [0]] ∧
+    runDirect exEv 0 (expandAll ([.eval 0, .reload, .site (.holdoutInit 0) 1, .eval 0] : List (CEv Nat Nat)))
+        = [[0], [10]] := by
+  refine ⟨by simp [CSafe, Site.changes, Site.clears], by decide, by decide⟩
+
 end Vita.C04
